@@ -95,26 +95,38 @@ def extra(binary, build, tier, rng):
     for n in ((3, 5, 6, 7) if tier == "quick" else (2, 3, 5, 6, 7, 9, 11, 15, 17, 51, 60)):
         items = ",".join(map(str, range(n)))
         ps.append(("partial_shuffle(%d elements, 1): element at the front" % n, n, 64, (lambda w, items=items: "pshuf items=%s m=1 words=%d" % (items, w)), front, (lambda w1, w2, items=items: "pshuf items=%s m=1 words=%d,%d" % (items, w1, w2))))
-    # shuffle draws through `Random::index` (not `range`): which element the FIRST draw sends to the end of the slice.  The later draws get a word
-    # that every length accepts (t * len mod 2^64 is len or 2^63 + len, never below the rejection zone 2^64 mod len < len) and never touch the end.
-    def last(res):
-        f = O.parse_ok(res)
-        return None if f is None else int(f[0].split(",")[-1])
+    # shuffle draws through `Random::index` (not `range`): the outcome of the FIRST draw, whatever it decides.  The later draws get a word that every
+    # length accepts (t * len mod 2^64 is len or 2^63 + len, never below the rejection zone 2^64 mod len < len), so the whole result is a step
+    # function of the first word with one step per value of the first draw; which result belongs to which value is LEARNT from the middle words of
+    # the n intervals (no assumption on which element the first draw moves, or where to); exact uniformity = the n steps are equally long.
+    from .preimage_oracle import Prober
     T = (1 << 63) + 1
     for n in ((9, 11, 19, 23, 27, 9 + rng.below(300), 9 + rng.below(300)) if tier == "quick" else tuple(range(9, 70)) + (100, 255, 257, 1000, 65535)):
         items = ",".join(map(str, range(n)))
         tail = ",".join([str(T)] * (n - 2))      # exactly the n - 2 further draws: a rejected first word makes the script run dry (no outcome)
-        ps.append(("shuffle(%d elements): element sent to the end by the first draw" % n, n, 64, (lambda w, items=items, tail=tail: "shuf items=%s words=%d,%s" % (items, w, tail)), last))
+        mk = (lambda w, items=items, tail=tail: "shuf items=%s words=%d,%s" % (items, w, tail))
+        whole = lambda res: (lambda f: None if f is None else f[0])(O.parse_ok(res))
+        mids = Prober(binary, mk, whole).many([((2 * c + 1) << 64) // (2 * n) for c in range(n)])
+        if None in mids or len(set(mids)) != n:
+            yield {"kind": "note", "text": "shuffle(%d): the results for the middle words of the %d intervals are not %d different orders - first-draw count skipped (another sampler / draw order)" % (n, n, n)}
+            continue
+        rank = {m: c for c, m in enumerate(mids)}
+        ps.append(("shuffle(%d elements): outcome of the first draw" % n, n, 64, mk, (lambda res, rank=rank, whole=whole: rank.get(whole(res)))))
     # the SECOND step of partial_shuffle draws from a range with a non-zero base (`range(1..len)`): which element is placed second, counted over all
     # words - and over the words behind a rejected one (a retry path of its own must add the base as well).  The first word (1) is accepted by
     # every length and leaves the slice as it is.
-    def second(res):
-        f = O.parse_ok(res)
-        return None if f is None else int(f[0].split(",")[1]) - 1
     for n in ((4, 6, 12) if tier == "quick" else (3, 4, 6, 7, 8, 12, 20, 37, 100)):
         items = ",".join(map(str, range(n)))
-        ps.append(("partial_shuffle(%d elements, 2): element placed second" % n, n - 1, 64, (lambda w, items=items: "pshuf items=%s m=2 words=1,%d" % (items, w)), second,
-                   (lambda w1, w2, items=items: "pshuf items=%s m=2 words=1,%d,%d" % (items, w1, w2))))
+        mk = (lambda w, items=items: "pshuf items=%s m=2 words=1,%d" % (items, w))
+        mk2 = (lambda w1, w2, items=items: "pshuf items=%s m=2 words=1,%d,%d" % (items, w1, w2))
+        whole = lambda res: (lambda f: None if f is None else f[0])(O.parse_ok(res))
+        mids = Prober(binary, mk, whole).many([((2 * c + 1) << 64) // (2 * (n - 1)) for c in range(n - 1)])
+        if None in mids or len(set(mids)) != n - 1:
+            yield {"kind": "note", "text": "partial_shuffle(%d, 2): the results for the middle words of the %d intervals of the second draw are not %d different results - count skipped" % (n, n - 1, n - 1)}
+            continue
+        rank = {m: c for c, m in enumerate(mids)}
+        # a result that the first stage never produces is reported as outcome -1 (a retry must land on the same results)
+        ps.append(("partial_shuffle(%d elements, 2): outcome of the second draw" % n, n - 1, 64, mk, (lambda res, rank=rank, whole=whole: None if whole(res) is None else rank.get(whole(res), -1)), mk2))
     # mid-sized slices (the element that reaches the front of a slice of n zero bytes with one mark): request bigshuf
     def frontbig(res):
         f = O.parse_ok(res)
